@@ -58,7 +58,7 @@ Qed.
 
 (* ---- a command that is disabled everywhere is never selected ---- *)
 Lemma is_cmd_disabled owner meths x :
-  dict_get (canon x) (e_dis E) = Some None -> is_cmd E owner meths x = false.
+  memG (canon x) (d_all (e_dis E)) = true -> is_cmd E owner meths x = false.
 Proof. intro H. unfold is_cmd, dis_disabled. rewrite H. reflexivity. Qed.
 
 Definition enabled_somewhere (x : str) : Prop := exists owner meths, is_cmd E owner meths x = true.
@@ -100,7 +100,7 @@ Proof.
 Qed.
 
 Theorem disabled_never_selected strs x cb :
-  dict_get (canon x) (e_dis E) = Some None ->
+  memG (canon x) (d_all (e_dis E)) = true ->
   In cb (snd (findCallbacksForArgs E strs)) ->
   last (fst (findCallbacksForArgs E strs)) [] <> x.
 Proof.
